@@ -18,7 +18,7 @@
                           in L (strict upper triangle ignored) and its product with its transpose;
      dget M i j        := entry (i, j) of a dense matrix given as the list of its rows. *)
 From Coq Require Import ZArith List Bool Arith Lia PrimFloat Reals Sorted.
-From MJV Require Import Lib.Num Lib.NumR Model.Sparse Model.Chol
+From MJV Require Import Lib.Num Lib.NumR Model.Sparse Model.SparseSuper Model.Chol Proof.SparseSuperProof
   Proof.LinAlgBase Proof.SparseProof Proof.SparseMergeProof Proof.SparseSymProof
   Proof.SparseCompressProof Proof.BandProof Proof.CholProof Proof.CholFactorProof.
 Import ListNotations.
@@ -221,6 +221,18 @@ Theorem C23_chol_factor_solve :
       bsum n (fun j => (if Nat.leb j i then dget A i j else dget A j i) * nth j x 0) = nth i b 0.
 Proof. exact chol_factor_solve. Qed.
 Print Assumptions C23_chol_factor_solve.
+
+(* ---------------- row supernodes (mju_superSparse, res_rowsuper of mju_transposeSparse): entry r of
+   the model's vector counts exactly the maximal run of rows following r with the same column list:
+   rows r .. r+k have the column list of row r, and row r+k+1 (if any) does not *)
+Theorem C23_supernodes :
+  forall (rs : list (list nat)) (r : nat), (r < length rs)%nat ->
+    let k := nth r (super_rows rs) 0%nat in
+    (r + k < length rs)%nat /\
+    (forall t : nat, (t <= k)%nat -> nth (r + t) rs [] = nth r rs []) /\
+    ((r + k + 1 < length rs)%nat -> nth (r + k + 1) rs [] <> nth r rs []).
+Proof. exact super_rows_spec. Qed.
+Print Assumptions C23_supernodes.
 
 (* ---------------- non-vacuity: concrete well-formed inputs with gaps, an empty row, unsorted
    columns; the models compute what the statements say *)
